@@ -514,7 +514,13 @@ def lastAtt (pred : Attempt → Bool) : List Attempt → Option Attempt
 
 /-- "the most recent attempt at `t`'s commands for the present fingerprint ran them all
 successfully, and the generates exist".  Present fingerprint: for `checksum` the hash of
-the stream; for `timestamp` "no source is newer than that attempt". -/
+the stream; for `timestamp` "no source is newer than that attempt".
+
+CLOCK GRANULARITY (explicit hypothesis of the timestamp branch): modification times and the clock of
+the invocations are counted in ONE unit (whole seconds in the harness), and "newer" is strict, as in the
+code (`time.After`): a source written in the SAME tick as the attempt (`mtimeOf = a.time`) counts as
+seen by it — `≤ a.time`.  An edit within the tick of a run is invisible to the method; the property is
+read modulo that granularity (`C04_same_tick_edit_counts_as_seen`). -/
 def goodRun (H : Hashes) (pr : Proj) (i : Nat) (t : Task) (s : State) : Bool :=
   gensOk t s.files &&
   match t.method with
